@@ -191,6 +191,10 @@ func (env *Env) c04FullRange(a *flow.Alt, loop string, bound pat.M, name, part s
 // firstMatch: in the selector loop an element is passed over only through a
 // failing selection test, and the loop visits elements in order from 0.
 func (env *Env) firstMatch(e *flow.Engine, loopID, construct string) {
+	env.firstMatchRule(e, loopID, construct, "C04/FIRST")
+}
+
+func (env *Env) firstMatchRule(e *flow.Engine, loopID, construct, ruleID string) {
 	r := env.R
 	i := strings.LastIndex(loopID, "#L")
 	if i < 0 {
@@ -203,7 +207,7 @@ func (env *Env) firstMatch(e *flow.Engine, loopID, construct string) {
 		}
 	}
 	if fn == nil {
-		r.Undecided("C04/FIRST", construct, "", "selector loop "+loopID+" not found")
+		r.Undecided(ruleID, construct, "", "selector loop "+loopID+" not found")
 		return
 	}
 	r.Functions[load.FuncName(fn)] = true
@@ -215,7 +219,7 @@ func (env *Env) firstMatch(e *flow.Engine, loopID, construct string) {
 		}
 	}
 	if lp == nil {
-		r.Undecided("C04/FIRST", construct, env.P.Pos(fn.Pos()), "selector loop "+loopID+" not found in "+load.FuncName(fn))
+		r.Undecided(ruleID, construct, env.P.Pos(fn.Pos()), "selector loop "+loopID+" not found in "+load.FuncName(fn))
 		return
 	}
 	// the in-loop selecting returns: return blocks reachable from the body that are not in the body
@@ -249,7 +253,7 @@ func (env *Env) firstMatch(e *flow.Engine, loopID, construct string) {
 		}
 	}
 	if bodyEntry < 0 {
-		r.Undecided("C04/FIRST", construct, env.P.Pos(head.Instrs[0].Pos()), "selector loop has no body")
+		r.Undecided(ruleID, construct, env.P.Pos(head.Instrs[0].Pos()), "selector loop has no body")
 		return
 	}
 	seen := map[int]bool{}
@@ -291,10 +295,10 @@ func (env *Env) firstMatch(e *flow.Engine, loopID, construct string) {
 	}
 	where := env.P.Pos(fn.Pos())
 	if skipped {
-		r.Fail("C04/FIRST", construct, where, "in selector loop "+loopID+" an element can be passed over without any selection test failing (not a first-match scan)")
+		r.Fail(ruleID, construct, where, "in selector loop "+loopID+" an element can be passed over without any selection test failing (not a first-match scan)")
 		return
 	}
-	r.OK("C04/FIRST", construct, where, "range loop from index 0; an element is skipped only through a failing selection test; the first passing element is returned")
+	r.OK(ruleID, construct, where, "range loop from index 0; an element is skipped only through a failing selection test; the first passing element is returned")
 }
 
 // exactSelection: every gate on the accept path that depends on the element
@@ -302,6 +306,10 @@ func (env *Env) firstMatch(e *flow.Engine, loopID, construct string) {
 // loop-bound test or a status test against a constant. An extra condition
 // (skipping levels by date, advisory, ...) changes which level is "first".
 func (env *Env) exactSelection(a *flow.Alt, loopID string, allowed []pat.M, construct string) {
+	env.exactSelectionRule(a, loopID, allowed, construct, "C04/EXACT")
+}
+
+func (env *Env) exactSelectionRule(a *flow.Alt, loopID string, allowed []pat.M, construct, ruleID string) {
 	r := env.R
 	mentions := func(t *flow.Term) bool {
 		return t.Contains(func(x *flow.Term) bool {
@@ -337,12 +345,12 @@ func (env *Env) exactSelection(a *flow.Alt, loopID string, allowed []pat.M, cons
 			if len(s) > 400 {
 				s = s[:400] + "…"
 			}
-			r.Fail("C04/EXACT", construct, env.P.Pos(g.Pos), "the level selected by loop "+loopID+" is subject to a condition the algorithm does not have: "+s)
+			r.Fail(ruleID, construct, env.P.Pos(g.Pos), "the level selected by loop "+loopID+" is subject to a condition the algorithm does not have: "+s)
 			return
 		}
 	}
 	if n > 0 {
-		r.OK("C04/EXACT", construct, "", fmt.Sprintf("all %d element-dependent gates are stated selection/verdict gates", n))
+		r.OK(ruleID, construct, "", fmt.Sprintf("all %d element-dependent gates are stated selection/verdict gates", n))
 	}
 }
 
